@@ -67,6 +67,14 @@ func thoroughExtras(id, knownF string, noSelf bool) (results []extraResult, ok b
 		for _, f := range files {
 			vs = append(vs, v{f, strings.TrimSuffix(filepath.Base(f), ".diff"), kind})
 		}
+		if kind == "refactors" {
+			// behaviour-preserving refactorings written by independent sub-agents: every property must stay silent on them
+			shared, _ := filepath.Glob(filepath.Join(verif, "selftest", "refactors", "_all", "*.diff"))
+			sort.Strings(shared)
+			for _, f := range shared {
+				vs = append(vs, v{f, "all/" + strings.TrimSuffix(filepath.Base(f), ".diff"), kind})
+			}
+		}
 	}
 	if b, err := os.ReadFile(filepath.Join(verif, "selftest", "reverts.txt")); err == nil {
 		for _, line := range strings.Split(string(b), "\n") {
